@@ -15,6 +15,7 @@ func c11(p *core.Program, r *core.Report) {
 	r.Rule("R1", "accumulator self-append: in package pilosa an assignment `A[i].f = append(B[j].f, ...)` to an indexed struct-field accumulator appends to the same element it assigns (A[i].f and B[j].f are the same expression); appending one accumulator's contents into another loses or cross-contaminates per-replica repair lists")
 	r.Rule("R2", "set/clear request symmetry: a function that builds several ImportRoaringRequest values addresses them to the same view key expression")
 	r.Rule("R4", "same-view plumbing: composing the sender's view-to-key function (the callee used in the Views key) with the receiver's key-to-view mapping (the code that rewrites the range key over ImportRoaringRequest.Views) is the identity on every class of view name (standard, standard_<time>, bsig_<field>), evaluated over abstract string shapes")
+	r.Rule("R5", "iterator end-of-data discipline: every call of a (rowID, columnID, eof) or (value, eof) iterator method (Next/Peek) in package pilosa that uses the returned position also binds the eof result and reads it; an exhausted iterator returns the zero position, which is a real bit (row 0, column 0)")
 	r.NotDecided = "the merge loop's iterator arithmetic and the majority vote for all contents; convergence of checksums after a pass"
 	pk := p.Pkg("")
 	if pk == nil {
@@ -52,6 +53,81 @@ func c11(p *core.Program, r *core.Report) {
 		})
 	}
 	r.Floor("C11/R1 indexed struct-field accumulators", nAcc, 4)
+
+	// ---- R5
+	nIt := 0
+	for _, fd := range core.AllFuncDecls(pk) {
+		if fd.Body == nil {
+			continue
+		}
+		ast.Inspect(fd.Body, func(n ast.Node) bool {
+			as, ok := n.(*ast.AssignStmt)
+			if !ok || len(as.Rhs) != 1 || len(as.Lhs) < 2 {
+				return true
+			}
+			call, ok := ast.Unparen(as.Rhs[0]).(*ast.CallExpr)
+			if !ok {
+				return true
+			}
+			fn := core.CalleeOf(info, call)
+			if fn == nil || (fn.Name() != "Next" && fn.Name() != "Peek") || fn.Pkg() == nil || fn.Pkg().Path() != core.ModPath {
+				return true
+			}
+			sig := fn.Type().(*types.Signature)
+			nres := sig.Results().Len()
+			if nres != len(as.Lhs) || nres < 2 {
+				return true
+			}
+			last := sig.Results().At(nres - 1)
+			if bt, ok := last.Type().Underlying().(*types.Basic); !ok || bt.Kind() != types.Bool {
+				return true
+			}
+			for i := 0; i < nres-1; i++ {
+				if bt, ok := sig.Results().At(i).Type().Underlying().(*types.Basic); !ok || bt.Info()&types.IsInteger == 0 {
+					return true
+				}
+			}
+			nIt++
+			usesPos := false
+			for _, l := range as.Lhs[:nres-1] {
+				if id, ok := l.(*ast.Ident); !ok || id.Name != "_" {
+					usesPos = true
+				}
+			}
+			eofID, isID := as.Lhs[nres-1].(*ast.Ident)
+			construct := core.FuncName(fd) + ": " + types.ExprString(call)
+			switch {
+			case !usesPos:
+				r.HoldAt("R5", construct, p.Pos(as.Pos()), "position discarded")
+			case isID && eofID.Name == "_":
+				r.Violate("R5", construct, p.Pos(as.Pos()), "the eof result of "+types.ExprString(call)+" is discarded while the returned position is used: an exhausted iterator reads as the bit (row 0, column 0)")
+			default:
+				// the eof variable must be read somewhere in the function
+				used := false
+				if isID {
+					obj := info.ObjectOf(eofID)
+					if fsig, ok := info.Defs[fd.Name].Type().(*types.Signature); ok {
+						for i := 0; i < fsig.Results().Len(); i++ {
+							if fsig.Results().At(i) == obj {
+								used = true // named result: returned to the caller
+							}
+						}
+					}
+					ast.Inspect(fd.Body, func(m ast.Node) bool {
+						if id, ok := m.(*ast.Ident); ok && id != eofID && info.Uses[id] == obj {
+							used = true
+						}
+						return true
+					})
+				} else {
+					used = true // stored into a field (buffered iterator)
+				}
+				r.Check(used, "R5", construct, p.Pos(as.Pos()), "eof bound and read", "the eof result is bound but never read")
+			}
+			return true
+		})
+	}
+	r.Floor("C11/R5 position-iterator calls", nIt, 5)
 
 	// ---- R2 and sender function for R4
 	var senderFns []*types.Func
